@@ -9,8 +9,8 @@ VERIF = os.path.dirname(os.path.dirname(os.path.abspath(__file__)))
 # pid -> (category, text, note, technique, has_thorough)
 CLAIMED = {
     "C01": ("other",
-            "Static decision of the structural clauses: every recursive cycle of the parser passes a recursion-limit check (stack clause), no loop path can spin without consuming input, entry functions open their root first, pop is guarded; thorough tier adds the reviewed panic-site inventory. A rule over all CFG paths / call-graph cycles covers nesting combinations no fixture contains.",
-            "Decides recursion depth <= limit (+constant), absence of trivially non-progressing loop paths, root typestate and guarded pop; assumes limit x frame fits the stack for the default 500 and rowan's documented panics; does not decide termination in general.",
+            "Static decision of the structural clauses: every recursive cycle of the parser passes a recursion-limit check (stack clause), no loop path can spin without consuming input, entry functions open their root first, pop is guarded. A rule over all CFG paths / call-graph cycles covers nesting combinations no fixture contains.",
+            "Decides recursion depth <= limit (+constant), absence of non-progressing loop paths (including by token kind), root typestate and guarded pop; absence of every other panic site is NOT claimed (the planned panic inventory was not built); assumes limit x frame fits the stack for the default 500 and rowan's documented panics; does not decide termination in general.",
             "call-graph SCC cut-set + CFG must-pass-through / dominator rules over rustc MIR", True),
     "C02": ("other",
             "Token conservation decided on every CFG path: each popped token is moved into a tree sink, error fragments are queued, the pending queue is flushed before the root closes, only two functions write tokens to the builder, Cursor.index has three writers.",
@@ -57,13 +57,13 @@ CLAIMED = {
             "Decides necessary structural conditions of order-independence; does not compare diagnostics of sequential and concatenated builds.",
             "sibling (SIB) must-pass-through rule per match edge over rustc MIR; who-calls on the orphan queue", False),
     "C21": ("other",
-            "Every recursive cycle of the compiler's call graph (28 SCCs) is classified: cut by a counting depth guard on every cycle, confined to one definition's syntax tree (bounded by the parser limit), or run only on validated input; cycles that follow names across definitions without a counting guard are reported (two genuine stack overflows found this way, listed as known findings). Diagnostic lists leave the crate only through sorting exits. Thorough tier adds the reviewed panic-site inventory.",
-            "Decides the stack clause relative to guard limits and the sortedness exits; ariadne rendering and drop glue are outside; the allow-list of single-definition cycles carries one reason each.",
+            "Every recursive cycle of the compiler's call graph (28 SCCs) is classified: cut by a counting depth guard on every cycle, confined to one definition's syntax tree (bounded by the parser limit), or run only on validated input; cycles that follow names across definitions without a counting guard are reported (two genuine stack overflows found this way, listed as known findings). Diagnostic lists leave the crate only through sorting exits; guard limits are small compile-time constants.",
+            "Decides the stack clause relative to guard limits and the sortedness exits; absence of every other panic site is NOT claimed (the planned panic inventory was not built); ariadne rendering and drop glue are outside; the allow-list of single-definition cycles carries one reason each.",
             "call-graph SCC classification with guard cut-sets (dominating success edges) + must-pass-through for sort exits over rustc MIR", True),
     "C03": ("other",
-            "The lexer's character classes are folded from the type-checked source (match patterns, guards, const-evaluated lookup tables) over every ASCII code point plus representatives of every non-ASCII class and compared with the October 2021 sets; sibling agreement of the string-body states on line terminators; writers of Cursor.index. Thorough tier: the advance() state machine extracted as a transducer and compared with a reference machine of the lexical grammar.",
-            "Quick tier decides the tables and the string-body sibling rule, not token boundaries in general; the Cursor primitives are the trusted vocabulary of the thorough tier.",
-            "pattern-set evaluation of HIR predicates over a finite character partition; sibling rule over extracted match arms", True),
+            "The lexer's character classes are folded from the type-checked source (match patterns, guards, const-evaluated lookup tables) over every ASCII code point plus representatives of every non-ASCII class and compared with the October 2021 sets; sibling agreement of the string-body states on line terminators; writers of Cursor.index. Both tiers: the advance() state machine is extracted from HIR by abstract interpretation over a symbolic cursor and the product with a reference machine of the lexical grammar is explored (kind, boundary, error/no-error, lost or twice-read characters; witness inputs); the thorough tier widens the alphabet.",
+            "The Cursor primitives (bump, eatc, current_str, prev_str, drain, is_pending) are the trusted vocabulary of the machine extraction; reference choices (SourceCharacter = any scalar value, whitespace runs as one token) are listed in the evidence.",
+            "pattern-set evaluation of HIR predicates over a finite character partition; abstract interpretation of the lexer loop from HIR + product-automaton exploration against a reference machine", True),
     "C06": ("other",
             "Sibling agreement between the lexer's escape table and the decoder's match arms (each accepted letter pushes the spec's character, none falls into the silent arm), block-string constants/line-splitting/delimiter offsets, and provenance of compiler string values from the decoder.",
             "Decides the escape tables and structural constants only; BlockStringValue's indentation arithmetic is data-dependent and not decided.",
